@@ -11,6 +11,11 @@ use serde_json::json;
 use std::sync::Arc;
 
 pub mod c01;
+pub mod c03;
+pub mod c04;
+pub mod c09;
+pub mod c28;
+pub mod textcorpus;
 
 pub struct Corpus {
     pub frag: &'static str,
